@@ -253,6 +253,56 @@ def alias_sweep(res, model):
     res.count("alias sweep names", len(names))
 
 
+# networks under different element tables built one after the other in ONE process (no reset in between):
+# the identifiers of a network are a function of its description, not of what was built before it
+TABLED = {
+    "usual": dict(elements=["e", "H", "He", "C", "O", "Si", "S"], pseudo=["CR", "Photon"],
+                  reactions=[(["He+", "e-"], ["He"]), (["Si", "H+"], ["Si+", "H"]), (["S+", "e-"], ["S"]), (["C", "O"], ["CO"])]),
+    "upper": dict(elements=["E", "H", "HE", "C", "O", "SI", "S"], pseudo=["CR", "PHOTON"],
+                  reactions=[(["HE+", "E"], ["HE"]), (["SI", "H+"], ["SI+", "H"]), (["S+", "E"], ["S"]), (["S", "H+"], ["S+", "H"]), (["SI", "O"], ["SIO"])]),
+    "metals": dict(elements=["e", "H", "C", "O", "N", "Na", "Ni", "I"], pseudo=["CR"],
+                   reactions=[(["Na", "H+"], ["Na+", "H"]), (["N", "I"], ["NI"]), (["Ni+", "e-"], ["Ni"]), (["N", "O"], ["NO"])]),
+    "upper-metals": dict(elements=["E", "H", "C", "O", "N", "NA", "NI", "I"], pseudo=["CR"],
+                         reactions=[(["NA", "H+"], ["NA+", "H"]), (["N", "I+"], ["NI+"]), (["NI+", "E"], ["NI"]), (["N+", "E"], ["N"])]),
+}
+
+
+def tabled_network(t):
+    net = Network(elements=list(t["elements"]), pseudo_elements=list(t["pseudo"]))
+    for r, p in t["reactions"]:
+        net.add_reaction(Reaction(list(r), list(p), 10.0, 41000.0, 1e-10, 0.0, 0.0, reaction_type=ReactionType.GAS_TWOBODY))
+    sp = net.species
+    return [s.name for s in sp], [s.alias for s in sp]
+
+
+def history_check(res, rng, n, only=None):
+    fresh = {}
+    for k, t in TABLED.items():
+        reset_globals()
+        fresh[k] = tabled_network(t)
+    orders = [["usual", "upper"], ["upper", "usual"], ["metals", "upper-metals"], ["upper-metals", "metals", "upper", "usual"]]
+    for _ in range(n):
+        orders.append([rng.choice(list(TABLED)) for _ in range(rng.randint(2, 4))])
+    for order in (only or orders):
+        reset_globals()
+        for pos, k in enumerate(order):
+            names, aliases = tabled_network(TABLED[k])
+            case = {"kind": "c09-history", "order": order, "position": pos}
+            if len(set(aliases)) != len(aliases):
+                dup = sorted({a for a in aliases if aliases.count(a) > 1})
+                res.violation("oracle", f"networks {order} built one after the other in one process: in network {pos} ({k}) the species "
+                                        f"{[n for n, a in zip(names, aliases) if a in dup]} share the identifier(s) {['IDX_' + d for d in dup]}", case)
+            elif (names, aliases) != fresh[k]:
+                res.violation("oracle", f"networks {order} built one after the other in one process: network {pos} ({k}) gets species/identifiers "
+                                        f"{list(zip(names, aliases))}, built first in a fresh process it gets {list(zip(*fresh[k]))}", case)
+            for a in aliases:
+                if not IDENT.match("IDX_" + a):
+                    res.violation("oracle", f"networks {order}: identifier IDX_{a} in network {pos} ({k}) is not legal", case)
+        res.case(("c09-history", tuple(order)), nontrivial=len(set(order)) > 1)
+    res.count("histories of networks under different element tables", len(orders))
+    reset_globals()
+
+
 def gen_desc(rng, size):
     desc = ol.gen_network(rng, size, grains=True)
     if rng.random() < 0.4:
@@ -274,13 +324,15 @@ def run(res, info):
     model = fw.Model() if info["ok"] else None
     res.rule = ("networks over gas/ion/ice/grain names with both electron spellings, labels and required species; every network: species "
                 "order, aliases, element keys vs model + identifier oracle; a subset rendered (macros, Python constants, summary) and a "
-                "few through export -> `naunet render` -> Enzo patch; non-trivial = at least two species")
+                "few through export -> `naunet render` -> Enzo patch; histories of networks under different element tables (usual / upper-case "
+                "spelling) built one after the other in one process; non-trivial = at least two species")
     res.assumptions = ["one spelling of the dust grain per network and one surface group (two known findings otherwise)",
                        "names without c-/l-/* labels (known finding)"]
     n = 300 if res.tier == "quick" else 5000
     nb = 25 if res.tier == "quick" else 300
     nc = 2 if res.tier == "quick" else 12
     alias_sweep(res, model)
+    history_check(res, rng, 6 if res.tier == "quick" else 200)
     for i, d in enumerate(FIXED):
         check_net(res, model, d, ("fixed", i), render=True, cli=(i in (3, 4, 6)))
     for kind, d in FINDINGS:
@@ -299,6 +351,10 @@ def replay(rp, info):
         d = case["desc"]
         d["reactions"] = [tuple(x) for x in d["reactions"]]
         check_net(res, model, d, "replay", render=True, cli=True)
+    elif case.get("kind") == "c09-history":
+        history_check(res, random.Random(0), 0, only=[list(case["order"])])
+    elif case.get("kind") == "c09-alias-sweep":
+        alias_sweep(res, model)
     for v in res.violations:
         print(v["kind"], v["what"][:600])
     print("replay:", "FAILS" if res.violations else "passes")
